@@ -56,6 +56,8 @@ def configs(tier, rnd):
                 n3.append((3, kind, outl, wiring, 2, "1/2"))
     # more particles on two data points: resampling with multiplicities (multinomial(N-1) over 4-5 slots)
     n2 = [(2, "semi-adapted", False, "run", 4, "1/2")]
+    # a single particle (`--num-particles 1`): the swarm is the retained path alone, the update must return the start tree
+    n2 += [(n, kind, outl, "run", 1, "1/2") for n in (1, 2) for kind in KINDS for outl in (False, True)]
     if tier == "quick":
         rnd.shuffle(n3)
         n3 = n3[:3]
